@@ -34,7 +34,14 @@ NESTED = pa.schema([('i', pa.int64()), ('p', pa.struct([('x', pa.int32()), ('y',
 def rows_of(n, nested=False):
     if nested:
         return [{'i': k, 'p': {'x': k % 5, 'y': 'y%d' % k}, 'l': list(range(k % 4))} for k in range(n)]
-    return [{'i': k, 's': 's%d' % (k % 7), 'f': k / 2} for k in range(n)]
+    rows = []
+    for k in range(n):
+        s_val = None if k % 5 == 4 else 's%d' % (k % 7)
+        if k % 2:        # dict key order differs from the schema's column order
+            rows.append({'f': k / 2, 's': s_val, 'i': k})
+        else:
+            rows.append({'i': k, 's': s_val, 'f': k / 2})
+    return rows
 
 
 def codecs():
